@@ -208,6 +208,44 @@ fn odd_names_and_clashes(ctx: &Ctx, bin: &Path) {
         }
         let _ = std::fs::remove_dir_all(&root);
     }
+    // (3) two different files whose names look alike: both images are written, each to its own file
+    for (k, (src_name, opts, flash_at, eep_at)) in [
+        ("prog.asm", vec!["-o", "Image.hex", "-e", "image.hex"], "Image.hex", "image.hex"),
+        ("prog.asm", vec!["-o", "Out/a.hex", "-e", "out/a.hex"], "Out/a.hex", "out/a.hex"),
+        ("Blink.asm", vec!["-o", "blink.eep.hex"], "blink.eep.hex", "Blink.eep.hex"),
+        ("prog.asm", vec!["-e", "PROG.hex"], "prog.hex", "PROG.hex"),
+        ("prog.asm", vec!["-o", "same.hex", "-e", "same.hex "], "same.hex", "same.hex "),
+        ("prog.asm", vec!["-o", "same.hex", "-e", "same.hex.hex"], "same.hex", "same.hex.hex"),
+        ("prog.asm", vec!["-o", "x/same.hex", "-e", "same.hex"], "x/same.hex", "same.hex"),
+        ("prog.asm", vec!["-o", "caf\u{e9}.hex", "-e", "cafe\u{301}.hex"], "caf\u{e9}.hex", "cafe\u{301}.hex"),
+    ].into_iter().enumerate() {
+        let root = base.join(format!("alike{}", k));
+        let _ = std::fs::remove_dir_all(&root);
+        let (work, home) = (root.join("work"), root.join("home"));
+        if ["x", "Out", "out"].iter().any(|d| std::fs::create_dir_all(work.join(d)).is_err()) || std::fs::create_dir_all(&home).is_err() {
+            ctx.inconclusive("cannot create scratch directories");
+            continue;
+        }
+        let src = work.join(src_name);
+        let _ = std::fs::write(&src, text);
+        let expected = fw::build_file(&src, &[home.join("cfg").join("avra-rs").join("includes")]);
+        let out = Command::new(bin).arg("-s").arg(src_name).args(&opts).current_dir(&work).env("HOME", &home).env("XDG_CONFIG_HOME", home.join("cfg")).output();
+        ctx.eval(1);
+        ctx.count("runs:look-alike-output-names", 1);
+        ctx.distinct(fw::hash_str(&format!("alike-{}", k)));
+        let (Ok(out), Outcome::Ok(exp)) = (out, &expected) else {
+            ctx.inconclusive("cannot run the CLI binary");
+            continue;
+        };
+        if !(out.status.code() == Some(0) && decode_is(&work.join(flash_at), &exp.code) && decode_is(&work.join(eep_at), &exp.eeprom)) {
+            ctx.violation(
+                "cli/success/look-alike-output-names",
+                format!("{:?} {:?}: exit {:?}; {} and {} are two files and must hold the flash and the EEPROM image ({})", src_name, opts, out.status.code(), flash_at, eep_at, fw::clip(&String::from_utf8_lossy(&out.stdout), 120)),
+                json!({"clash_args": opts, "source": text, "exit": out.status.code(), "stdout": String::from_utf8_lossy(&out.stdout)}),
+            );
+        }
+        let _ = std::fs::remove_dir_all(&root);
+    }
 }
 
 struct Case<'a> {
